@@ -1,0 +1,132 @@
+//go:build verif
+// +build verif
+
+package nutsdb
+
+import (
+	"sync"
+)
+
+const verifEnabled = true
+
+// This file is only compiled with the build tag "verif". It gives an external
+// verification harness (1) an observer that is called before every file
+// mutation the library performs, optionally injecting a fault, and (2) a few
+// constructors/accessors for record types whose fields are unexported.
+
+// VerifEvent describes one file-system mutation that is about to happen.
+type VerifEvent struct {
+	Kind string // mkdir, open, truncate, write, sync, close, remove, read
+	Path string
+	Off  int64
+	Size int64
+	Data []byte // the bytes about to be written (not copied; copy before keeping)
+}
+
+// VerifFault makes the hooked operation fail. For a write, Partial bytes of the
+// data are written before Err is returned.
+type VerifFault struct {
+	Err     error
+	Partial int
+}
+
+// VerifHook, when non-nil, is called before each mutation.
+var VerifHook func(*VerifEvent) *VerifFault
+
+var verifPaths sync.Map // rwmanager pointer -> path
+
+func verifRegister(p interface{}, path string) { verifPaths.Store(p, path) }
+
+func verifPathOf(p interface{}) string {
+	if v, ok := verifPaths.Load(p); ok {
+		return v.(string)
+	}
+	return ""
+}
+
+func verifForget(p interface{}) { verifPaths.Delete(p) }
+
+func verifOp(kind, path string, off, size int64, data []byte) *VerifFault {
+	h := VerifHook
+	if h == nil {
+		return nil
+	}
+	return h(&VerifEvent{Kind: kind, Path: path, Off: off, Size: size, Data: data})
+}
+
+// ---- shim: constructors and accessors for verification of the codecs ----
+
+// VerifEntryFields is the flat form of an Entry.
+type VerifEntryFields struct {
+	Bucket, Key, Value []byte
+	Timestamp          uint64
+	TTL                uint32
+	Flag, Status, DS   uint16
+	TxID               uint64
+	KeySize, ValueSize uint32
+	BucketSize         uint32
+}
+
+// VerifNewEntry builds an Entry from flat fields (sizes are derived).
+func VerifNewEntry(f VerifEntryFields) *Entry {
+	return &Entry{
+		Key:   f.Key,
+		Value: f.Value,
+		Meta: &MetaData{
+			keySize:    uint32(len(f.Key)),
+			valueSize:  uint32(len(f.Value)),
+			timestamp:  f.Timestamp,
+			TTL:        f.TTL,
+			Flag:       f.Flag,
+			bucket:     f.Bucket,
+			bucketSize: uint32(len(f.Bucket)),
+			txID:       f.TxID,
+			status:     f.Status,
+			ds:         f.DS,
+		},
+	}
+}
+
+// VerifEntryOf flattens an Entry.
+func VerifEntryOf(e *Entry) VerifEntryFields {
+	return VerifEntryFields{
+		Bucket: e.Meta.bucket, Key: e.Key, Value: e.Value,
+		Timestamp: e.Meta.timestamp, TTL: e.Meta.TTL, Flag: e.Meta.Flag,
+		Status: e.Meta.status, DS: e.Meta.ds, TxID: e.Meta.txID,
+		KeySize: e.Meta.keySize, ValueSize: e.Meta.valueSize, BucketSize: e.Meta.bucketSize,
+	}
+}
+
+// VerifRootIdxFields is the flat form of a BPTreeRootIdx.
+type VerifRootIdxFields struct {
+	FID, RootOff uint64
+	Start, End   []byte
+}
+
+// VerifNewRootIdx builds a BPTreeRootIdx.
+func VerifNewRootIdx(f VerifRootIdxFields) *BPTreeRootIdx {
+	return &BPTreeRootIdx{fID: f.FID, rootOff: f.RootOff, start: f.Start, end: f.End,
+		startSize: uint32(len(f.Start)), endSize: uint32(len(f.End))}
+}
+
+// VerifRootIdxOf flattens a BPTreeRootIdx.
+func VerifRootIdxOf(b *BPTreeRootIdx) VerifRootIdxFields {
+	return VerifRootIdxFields{FID: b.fID, RootOff: b.rootOff, Start: b.start, End: b.end}
+}
+
+// VerifNewBucketMeta builds a BucketMeta.
+func VerifNewBucketMeta(start, end []byte) *BucketMeta {
+	return &BucketMeta{start: start, end: end, startSize: uint32(len(start)), endSize: uint32(len(end))}
+}
+
+// VerifBucketMetaOf flattens a BucketMeta.
+func VerifBucketMetaOf(b *BucketMeta) (start, end []byte) { return b.start, b.end }
+
+// VerifActiveFree returns how many bytes are left in the active segment (used
+// by generators to build records that fill a segment exactly).
+func VerifActiveFree(db *DB) int64 {
+	if db == nil || db.ActiveFile == nil {
+		return -1
+	}
+	return db.opt.SegmentSize - db.ActiveFile.ActualSize
+}
